@@ -20,7 +20,7 @@ def main():
     results = {}
     def one(s):
         return s, run(os.path.join(VERIF, 'seeded', s, 'patch.diff'), props)
-    with cf.ThreadPoolExecutor(max_workers=4) as ex:
+    with cf.ThreadPoolExecutor(max_workers=8) as ex:
         for s, res in ex.map(one, seeds):
             results[s] = res
             target = s.split('-')[0]
